@@ -280,7 +280,11 @@ Proof.
 Qed.
 
 Definition untouched (s : fsstate) (f : fname) (op : fsop) : Prop :=
-  forall g, In g (touched op) -> g <> f /\ aliases s f g = false.
+  forall g, In g (touched op) ->
+            g <> f /\ match op with
+                      | Create _ _ | Write _ _ => aliases s f g = false
+                      | _ => True
+                      end.
 
 Lemma aliases_false s f g j i :
   aliases s f g = false -> vns s g = Some j -> vns s f = Some i \/ dns s f = Some i -> j <> i.
@@ -376,4 +380,324 @@ Proof.
     destruct (Kc i (or_intror H1)) as [Kc1 Kc2].
     repeat split; try congruence. rewrite Kc2; congruence.
   - congruence.
+Qed.
+
+Lemma safe_untouched s P op f : safe_op s P op = true -> In f P -> untouched s f op.
+Proof.
+  unfold safe_op, safe_name. intros H Hf g Hg.
+  rewrite forallb_forall in H. specialize (H g Hg).
+  rewrite forallb_forall in H. specialize (H f Hf).
+  apply andb_true_iff in H as [H1 H2].
+  apply negb_true_iff in H1, H2. apply fname_eqb_neq in H1.
+  split; [congruence|]. destruct op; auto.
+Qed.
+
+(** generic (non-publishing, non-root-fsync) step *)
+Lemma inv_safe_step o s ps op s' :
+  inv o s ps -> safe_op s (protected o ps) op = true -> op <> FsyncDir Root ->
+  apply s op = Some s' -> inv o s' ps.
+Proof.
+  destruct ps as [[dv vv] pub]. intros (Hwf & Hcd & Hcv & Hpd & Hpv) Hsafe Hop Ha.
+  assert (HK : forall f, In f (protected o (dv, vv, pub)) -> keeps s s' f op).
+  { intros f Hf. eapply apply_keeps; eauto. eapply safe_untouched; eauto. }
+  assert (HP : forall ov, (forall f, In f (opnames o ov) -> In f (protected o (dv, vv, pub))) ->
+                          pinned o s ov -> pinned o s' ov).
+  { intros [v|] Hin; simpl; [|trivial]. intros [Hv Hst]. split; [assumption|].
+    intros f Hf. eapply keeps_stable; [apply HK; apply Hin; exact Hf|auto]. }
+  split; [|split; [|split; [|split]]].
+  - eapply wf_apply; eauto.
+  - eapply keeps_cur_dns; eauto. apply HK. now left.
+  - eapply keeps_cur_vns; eauto. apply HK. now left.
+  - apply HP; [|assumption]. intros f Hf. simpl. right. apply in_or_app. now left.
+  - apply HP; [|assumption]. intros f Hf. simpl. right. apply in_or_app. now right.
+Qed.
+
+Lemma inv_fsync_root o s dv vv pub s' :
+  inv o s (dv, vv, pub) -> apply s (FsyncDir Root) = Some s' -> inv o s' (vv, vv, pub).
+Proof.
+  intros (Hwf & Hcd & Hcv & Hpd & Hpv) Ha.
+  assert (HK : forall f, keeps s s' f (FsyncDir Root)).
+  { intros f. eapply apply_keeps; eauto. intros g []. }
+  assert (HP : pinned o s' vv).
+  { destruct vv as [v|]; simpl; [|trivial]. destruct Hpv as [Hv Hst]. split; [assumption|].
+    intros f Hf. eapply keeps_stable; [apply HK|auto]. }
+  assert (HC : cur_points o s' (vns s') vv) by (eapply keeps_cur_vns; eauto).
+  split; [|split; [|split; [|split]]]; try assumption.
+  - eapply wf_apply; eauto.
+  - (* the durable [current] is now the volatile one *)
+    simpl in Ha. destruct (negb (vdirs s Root)); [discriminate|].
+    inversion Ha; subst; clear Ha. simpl in *. exact HC.
+Qed.
+
+Lemma publish_ok_spec o s dv vv pub k v1 :
+  publish_ok o s (dv, vv, pub) k = Some v1 ->
+  pub = false /\ dv = vv /\ version_contents o v1 <> None /\
+  (forall f, In f (pnames o v1) -> stable o s f) /\
+  exists it t, vns s (TempFile k) = Some it /\ dcont s it = [t] /\ vcont s it = [t] /\
+               current_points o t = Some v1.
+Proof.
+  unfold publish_ok. destruct pub; simpl; [discriminate|].
+  destruct (opt_eqb dv vv) eqn:E; simpl; [|discriminate]. apply opt_eqb_eq in E.
+  unfold cur_of. rewrite upd_name_same.
+  destruct (vns s (TempFile k)) as [it|] eqn:Et; [|discriminate].
+  destruct (vcont s it) as [|t [|]] eqn:Ev; try discriminate.
+  destruct (list_eqb (dcont s it) [t]) eqn:Ed; [|discriminate]. apply list_eqb_eq in Ed.
+  destruct (current_points o t) as [v|] eqn:Ec; [|discriminate].
+  destruct (forallb (stableb o s) (pnames o v)) eqn:Es; simpl; [|discriminate].
+  destruct (version_contents o v) eqn:Evc; [|discriminate].
+  intros H; inversion H; subst. repeat split; auto; try congruence.
+  - intros f Hf. rewrite forallb_forall in Es. now apply Es.
+  - exists it, t. auto.
+Qed.
+
+Lemma pnames_not_special o v f :
+  In f (pnames o v) -> f <> Current /\ forall k, f <> TempFile k.
+Proof.
+  unfold pnames. destruct (version_contents o v) as [vd|]; [|intros []].
+  intros [<-|H]; [split; [|intros k]; discriminate|].
+  apply in_app_or in H as [H|H]; apply in_map_iff in H as (x & <- & _);
+    (split; [|intros k]; discriminate).
+Qed.
+
+Lemma inv_publish o s dv vv pub k v1 s' :
+  inv o s (dv, vv, pub) -> publish_ok o s (dv, vv, pub) k = Some v1 ->
+  apply s (Rename (TempFile k) Current) = Some s' -> inv o s' (dv, Some v1, true).
+Proof.
+  intros (Hwf & Hcd & Hcv & Hpd & Hpv) Hp Ha.
+  apply publish_ok_spec in Hp as (-> & <- & Hvc & Hst & it & t & Ht & Hd & Hv & Hc).
+  assert (HK : forall f, f <> Current -> (forall k', f <> TempFile k') ->
+                         keeps s s' f (Rename (TempFile k) Current)).
+  { intros f H1 H2. eapply apply_keeps; eauto.
+    intros g [<-|[<-|[]]]; split; auto. }
+  assert (HP : forall ov, pinned o s ov -> pinned o s' ov).
+  { intros [v|]; simpl; [|trivial]. intros [Hv' Hst']. split; [assumption|].
+    intros f Hf. destruct (pnames_not_special _ _ _ Hf). eapply keeps_stable; [apply HK|]; auto. }
+  simpl in Ha. rewrite Ht in Ha. inversion Ha; subst; clear Ha.
+  split; [|split; [|split; [|split]]].
+  - eapply (wf_apply s (Rename (TempFile k) Current)); [simpl; now rewrite Ht|assumption].
+  - destruct dv as [v|]; simpl in *; assumption.
+  - simpl. exists it, t. rewrite upd_name_same. auto.
+  - apply HP in Hpd. destruct dv; simpl in *; assumption.
+  - assert (Hq : pinned o s (Some v1)) by (split; assumption).
+    apply HP in Hq. simpl in *. assumption.
+Qed.
+
+Lemma step_inv o s ps op ps' s' :
+  inv o s ps -> proto_step o s ps op = Some ps' -> apply s op = Some s' -> inv o s' ps'.
+Proof.
+  intros Hi Hs Ha. destruct ps as [[dv vv] pub].
+  assert (Hgen : forall op0, op0 = op -> op0 <> FsyncDir Root ->
+            (if safe_op s (protected o (dv, vv, pub)) op0 then Some (dv, vv, pub) else None) = Some ps' ->
+            inv o s' ps').
+  { intros op0 -> Hne H.
+    destruct (safe_op s (protected o (dv, vv, pub)) op) eqn:E; [|discriminate].
+    inversion H; subst. eapply inv_safe_step; eauto. }
+  destruct op as [d|f e|f t|f|d|src dst|f]; unfold proto_step in Hs;
+    try (apply (Hgen _ eq_refl); [discriminate|exact Hs]).
+  - destruct d; try (apply (Hgen _ eq_refl); [discriminate|exact Hs]).
+    inversion Hs; subst. eapply inv_fsync_root; eauto.
+  - destruct src as [|a|a|a|k|a]; try (apply (Hgen _ eq_refl); [discriminate|exact Hs]).
+    destruct dst; try (apply (Hgen _ eq_refl); [discriminate|exact Hs]).
+    destruct (publish_ok o s (dv, vv, pub) k) as [v1|] eqn:Ep; [|discriminate].
+    inversion Hs; subst. eapply inv_publish; eauto.
+Qed.
+
+(** * Runs *)
+Lemma proto_run_app o s ps a b :
+  proto_run o s ps (a ++ b) =
+  match proto_run o s ps a with
+  | Some (s1, ps1) => proto_run o s1 ps1 b
+  | None => None
+  end.
+Proof.
+  revert s ps; induction a as [|op a IH]; intros s ps; simpl; [reflexivity|].
+  destruct (proto_step o s ps op); [|reflexivity].
+  destruct (apply s op); [|reflexivity]. apply IH.
+Qed.
+
+Lemma proto_run_run o s ps tr sf psf :
+  proto_run o s ps tr = Some (sf, psf) -> run_fs s tr = Some sf.
+Proof.
+  revert s ps; induction tr as [|op tr IH]; intros s ps; simpl.
+  - intros H; inversion H; reflexivity.
+  - destruct (proto_step o s ps op); [|discriminate].
+    destruct (apply s op); [|discriminate]. apply IH.
+Qed.
+
+Lemma proto_run_inv o s ps tr sf psf :
+  inv o s ps -> proto_run o s ps tr = Some (sf, psf) -> inv o sf psf.
+Proof.
+  revert s ps; induction tr as [|op tr IH]; intros s ps Hi; simpl.
+  - intros H; inversion H; subst; assumption.
+  - destruct (proto_step o s ps op) as [ps'|] eqn:Es; [|discriminate].
+    destruct (apply s op) as [s'|] eqn:Ea; [|discriminate].
+    apply IH. eapply step_inv; eauto.
+Qed.
+
+Lemma proto_step_shape o s dv vv pub op dv' vv' pub' :
+  proto_step o s (dv, vv, pub) op = Some (dv', vv', pub') ->
+  (pub' = pub /\ vv' = vv /\ (dv' = dv \/ dv' = vv)) \/
+  (pub = false /\ pub' = true /\ dv = vv /\ dv' = dv /\ exists v1, vv' = Some v1).
+Proof.
+  intros Hs.
+  Ltac use_gen := match goal with Hs : context [safe_op _ _ ?x], Hgen : _ |- _ => exact (Hgen x Hs) end.
+  assert (Hgen : forall op0,
+            (if safe_op s (protected o (dv, vv, pub)) op0 then Some (dv, vv, pub) else None)
+            = Some (dv', vv', pub') ->
+            pub' = pub /\ vv' = vv /\ (dv' = dv \/ dv' = vv)).
+  { intros op0 H. destruct (safe_op s (protected o (dv, vv, pub)) op0); [|discriminate].
+    inversion H; subst. auto. }
+  destruct op as [d|f e|f t|f|d|src dst|f]; unfold proto_step in Hs;
+    try (left; use_gen).
+  - destruct d; try (left; use_gen).
+    inversion Hs; subst. left. split; [reflexivity|split; [reflexivity|now right]].
+  - destruct src as [|a|a|a|k|a]; try (left; use_gen).
+    destruct dst; try (left; use_gen).
+    destruct (publish_ok o s (dv, vv, pub) k) as [v1|] eqn:Ep; [|discriminate].
+    inversion Hs; subst. apply publish_ok_spec in Ep as (-> & -> & _). right. eauto 10.
+Qed.
+
+(** protocol states reachable from [(ov, ov, false)] *)
+Definition reach0 (ov : option N) (ps : pstate) : Prop :=
+  let '(dv, vv, pub) := ps in
+  if pub then (dv = ov \/ dv = vv) /\ (exists v1, vv = Some v1) else dv = ov /\ vv = ov.
+
+Lemma proto_run_reach0 o ov s ps tr sf psf :
+  reach0 ov ps -> proto_run o s ps tr = Some (sf, psf) -> reach0 ov psf.
+Proof.
+  revert s ps; induction tr as [|op tr IH]; intros s ps Hr; simpl.
+  - intros H; inversion H; subst; assumption.
+  - destruct (proto_step o s ps op) as [ps'|] eqn:Es; [|discriminate].
+    destruct (apply s op) as [s'|] eqn:Ea; [|discriminate].
+    apply IH. destruct ps as [[dv vv] pub], ps' as [[dv' vv'] pub'].
+    apply proto_step_shape in Es as [(E1 & E2 & Hd)|(E1 & E2 & E3 & E4 & v1 & E5)]; subst; simpl in *.
+    + destruct pub.
+      * destruct Hr as [Hr Hv]. split; [|assumption].
+        destruct Hd as [E| E]; subst; [assumption|now right].
+      * destruct Hr as [E1 E2]; subst. destruct Hd as [E| E]; subst; auto.
+    + destruct Hr as [E _]; subst. split; [now left|eauto].
+Qed.
+
+Lemma proto_run_published o s dv vv tr sf dvf vvf pubf :
+  proto_run o s (dv, vv, true) tr = Some (sf, (dvf, vvf, pubf)) -> vvf = vv /\ pubf = true.
+Proof.
+  revert s dv; induction tr as [|op tr IH]; intros s dv; cbn [proto_run].
+  - intros H; inversion H; subst; auto.
+  - destruct (proto_step o s (dv, vv, true) op) as [[[dv' vv'] pub']|] eqn:Es; [|discriminate].
+    destruct (apply s op) as [s'|] eqn:Ea; [|discriminate].
+    apply proto_step_shape in Es as [(E1 & E2 & Hd)|(? & _)]; [|discriminate].
+    subst. apply IH.
+Qed.
+
+Lemma durable_is_crash_image s : is_crash_image s (durable_image s).
+Proof.
+  split; [|split]; simpl; auto.
+  intros f. unfold entry_ok. destruct (dns s f) as [i|] eqn:E; [|now left].
+  exists i. split; [now left|apply crash_contents_durable].
+Qed.
+
+Lemma cur_points_cur_of o s ns ov : cur_points o s ns ov -> cur_of o s ns = Some ov.
+Proof.
+  unfold cur_of. destruct ov as [v|]; simpl.
+  - intros (i & t & -> & Hd & -> & Hc). rewrite Hd, Hc. simpl. now rewrite N.eqb_refl.
+  - intros ->. reflexivity.
+Qed.
+
+Lemma osummary_not_failed o s ov : pinned o s ov -> osummary o ov <> SFailed.
+Proof.
+  destruct ov as [v|]; simpl; [|discriminate]. intros [Hv _]. unfold vsummary.
+  destruct (version_contents o v); [discriminate|congruence].
+Qed.
+
+(** * Main results *)
+Lemma inv_recover_durable o s ov pub :
+  inv o s (ov, ov, pub) -> summary (recover_result_of o s) = osummary o ov.
+Proof.
+  intros Hi. pose proof (inv_recover o s _ (durable_image s) Hi (durable_is_crash_image s)) as H.
+  simpl in H. unfold recover_result_of. tauto.
+Qed.
+
+Lemma crash_atomic_core o s ov tr sf dvf vvf pubf :
+  inv o s (ov, ov, false) ->
+  proto_run o s (ov, ov, false) tr = Some (sf, (dvf, vvf, pubf)) -> dvf = vvf ->
+  summary (recover_result_of o s) = osummary o ov /\
+  summary (recover_result_of o sf) = osummary o vvf /\
+  inv o sf (vvf, vvf, pubf) /\
+  forall n sn img,
+    run_fs s (firstn n tr) = Some sn -> is_crash_image sn img ->
+    (summary (recover_dir o img) = osummary o ov \/
+     summary (recover_dir o img) = osummary o vvf) /\
+    (length tr <= n -> summary (recover_dir o img) = osummary o vvf)%nat /\
+    summary (recover_dir o img) <> SFailed /\
+    exists psn, inv o sn psn.
+Proof.
+  intros Hi Hrun ->.
+  pose proof (proto_run_inv _ _ _ _ _ _ Hi Hrun) as Hif.
+  split; [eapply inv_recover_durable; eauto|].
+  split; [eapply inv_recover_durable; eauto|].
+  split; [assumption|].
+  intros n sn img Hn Himg.
+  rewrite <- (firstn_skipn n tr) in Hrun. rewrite proto_run_app in Hrun.
+  destruct (proto_run o s (ov, ov, false) (firstn n tr)) as [[sn' psn]|] eqn:En; [|discriminate].
+  pose proof (proto_run_run _ _ _ _ _ _ En) as Hr. rewrite Hr in Hn. inversion Hn; subst sn'.
+  pose proof (proto_run_inv _ _ _ _ _ _ Hi En) as Hin.
+  assert (Hreach : reach0 ov psn) by (eapply proto_run_reach0; [|exact En]; simpl; auto).
+  pose proof (inv_recover o sn psn img Hin Himg) as Hrec.
+  destruct psn as [[dvn vvn] pubn].
+  assert (Hcases : summary (recover_dir o img) = osummary o ov \/
+                   summary (recover_dir o img) = osummary o vvf).
+  { simpl in Hreach. destruct pubn.
+    - apply proto_run_published in Hrun as [-> _].
+      destruct Hreach as [[->| ->] _]; tauto.
+    - destruct Hreach as [-> ->]. tauto. }
+  split; [exact Hcases|]. split; [|split].
+  - intros Hlen. rewrite firstn_all2 in En by lia.
+    rewrite skipn_all2 in Hrun by lia. simpl in Hrun. inversion Hrun; subst. tauto.
+  - destruct Hin as (_ & _ & _ & Hpd & Hpv).
+    destruct Hrec as [->| ->]; eapply osummary_not_failed; eauto.
+  - eauto.
+Qed.
+
+(** [before] = what recovery returns on the durable state of [s]; [after] = same for
+    the final state.  A crash at ANY point of a protocol-conforming trace (after any
+    number [n] of its ops, in ANY crash image: any subset of the pending directory
+    updates, any torn/partial unsynced content) recovers to exactly [before] or
+    [after] (version id, table ids, blob file ids), never fails, never a mixture; and
+    once the whole trace has run, only [after] is possible.  (Results are compared by
+    [summary], i.e. ignoring which orphans recovery deleted.) *)
+Theorem crash_atomic_generic o s tr :
+  disk_consistent o s -> protocol_ok o s tr = true ->
+  exists sf, run_fs s tr = Some sf /\ disk_consistent o sf /\
+  forall n sn img,
+    run_fs s (firstn n tr) = Some sn -> is_crash_image sn img ->
+    (summary (recover_dir o img) = summary (recover_result_of o s) \/
+     summary (recover_dir o img) = summary (recover_result_of o sf)) /\
+    (length tr <= n -> summary (recover_dir o img) = summary (recover_result_of o sf))%nat /\
+    summary (recover_dir o img) <> SFailed /\ summary (recover_dir o img) <> SFresh.
+Proof.
+  intros [v Hd] Hp. unfold disk_ok in Hd.
+  pose proof Hd as (_ & Hcd & Hcv & _).
+  unfold protocol_ok in Hp.
+  rewrite (cur_points_cur_of _ _ _ _ Hcd), (cur_points_cur_of _ _ _ _ Hcv) in Hp.
+  apply andb_true_iff in Hp as [_ Hp].
+  destruct (proto_run o s (Some v, Some v, false) tr) as [[sf [[dvf vvf] pubf]]|] eqn:Er;
+    [|discriminate].
+  apply opt_eqb_eq in Hp.
+  destruct (crash_atomic_core _ _ _ _ _ _ _ _ Hd Er Hp) as (Hb & Ha & Hif & Hall).
+  assert (Hvvf : exists v', vvf = Some v').
+  { assert (Hr0 : reach0 (Some v) (Some v, Some v, false)) by (simpl; auto).
+    pose proof (proto_run_reach0 o (Some v) _ _ _ _ _ Hr0 Er) as Hr.
+    simpl in Hr. subst dvf. destruct pubf.
+    - apply Hr.
+    - destruct Hr as [_ E]. eauto. }
+  destruct Hvvf as [v' ->].
+  exists sf. split; [eapply proto_run_run; eauto|]. split.
+  { exists v'. unfold disk_ok. destruct Hif as (H1 & H2 & H3 & H4 & H5).
+    repeat (split; try assumption). }
+  intros n sn img Hn Himg.
+  destruct (Hall n sn img Hn Himg) as (H1 & H2 & H3 & _).
+  rewrite Hb, Ha. repeat split; try assumption.
+  assert (Hnf : forall w, pinned o s (Some w) \/ pinned o sf (Some w) -> osummary o (Some w) <> SFresh).
+  { intros w Hw. simpl. unfold vsummary. destruct (version_contents o w); discriminate. }
+  destruct H1 as [->| ->]; apply Hnf; [left; apply Hd|right; apply Hif].
 Qed.
